@@ -18,7 +18,7 @@ CLAIMS = {
          "TLC model checking of Pdb.tla + behaviour replay + TLC trace validation"),
  "C05": ("Pdb.tla with a reader process whose lookup is three separate steps, interleaved with committers and all worker sub-steps (ReadInterval, LayerHandOver; necessity configs swap the hand-over order); runs with the four real worker threads, 2 committers and 3 readers are recorded and validated by TLC: every hook event must match the fine-grained action at its linearization point and every read must satisfy interval semantics",
          "TLC model checking of Pdb.tla (reader process) + TLC trace validation of threaded runs"),
- "C12": ("Pdb.tla PowerLoss in every state (any prefix of the unsynced log tail, torn record, any subset of unflushed table locations) with RecoveredIsPrefix and SyncedSurvive, necessity configs for both ordering rules; on the implementation fdatasync/fsync/msync/ftruncate/unlink are interposed and TLC checks on every recorded run that no record is applied before its log bytes were synced and no log is truncated or deleted before the tables it fed were msync'ed",
+ "C12": ("Pdb.tla PowerLoss in every state (any prefix of the unsynced log tail, torn record, any subset of unflushed table locations) with RecoveredIsPrefix and SyncedSurvive, necessity configs for both ordering rules; on the implementation fdatasync/fsync/msync/ftruncate/unlink are interposed and TLC checks on every recorded run that no record is applied before its log bytes were synced and no log is truncated or deleted before the tables it fed were msync'ed; crash images of recorded runs are cut down to what a power loss may leave (files as at their last msync in any combination, log tails cut or torn) and the recovered state must contain every synced record",
          "TLC model checking of Pdb.tla (PowerLoss) + TLC trace validation of observed file operations"),
  "C13": ("Pdb.tla Corrupt actions (truncate at/inside any record, invalid record, missing file) followed by recovery with RecoveredIsPrefix and NotOlderThanTables; TLC-generated damage steps are concretized on real log files at byte level and the real open must not panic and must yield the model's prefix; two damage classes the design cannot handle are a recorded known finding (F12)",
          "TLC model checking of Pdb.tla (Corrupt actions) + behaviour replay on damaged real log files"),
